@@ -100,9 +100,18 @@ def analyse(facts, tier):
     obls.append(Obl('C17.R2', cm.name, 'MIDI channel 9 is skipped when numbering melodic channels', skip[1] if skip else cm.loc, 'discharged' if ok else 'finding',
                     why='if(currentChannel == 9) ++currentChannel' if ok else 'the allocator skips channel %s instead of the percussion channel 9: a melodic MUS channel lands on the drum channel' % (skip[0] if skip else None)))
     vol = False
+    # the channel map: the local array that receives the post-incremented channel counter
+    chanmap_ids = set()
+    for x in walk(cm.tree):
+        ap = assign_parts_raw(x) if isinstance(x, dict) else None
+        if ap and ap[2] == '=' and strip(ap[0]).get('k') == 'ArraySubscriptExpr' and strip(strip(ap[0])['b']).get('k') == 'DeclRefExpr' and \
+                (const_of(ap[1]) == 9 or (is_incdec(strip(ap[1])) and strip(ap[1])['op'] == '++')):
+            chanmap_ids.add(strip(strip(ap[0])['b'])['id'])
     for b, j, st in cm.cfg.stmts():
         for x in walk(st['s']):
-            if x.get('k') == 'ArraySubscriptExpr' and short(strip(x['b']).get('n', '')) == 'channel_volume' and x.get('ext') == 16 and 'channelMap[channel]' in show(x['i']):
+            # a 16-entry table subscripted by an element of the channel map (the mapped MIDI channel, not the MUS channel)
+            if x.get('k') == 'ArraySubscriptExpr' and x.get('ext') == 16 and strip(x['i']).get('k') == 'ArraySubscriptExpr' and strip(strip(x['i'])['b']).get('id') in chanmap_ids \
+                    and strip(x['b']).get('id') not in chanmap_ids:
                 vol = True
     obls.append(Obl('C17.R2', cm.name, 'note volume remembered per mapped MIDI channel', cm.loc, 'discharged' if vol else 'finding', why='channel_volume[channelMap[channel]] with 16 entries'))
 
@@ -138,20 +147,33 @@ def analyse(facts, tier):
         raise build.AnalysisBroken('C17: XMI converter not compiled in this view')
     ks = {}
     for fn in [f for f in facts.all_fns() if f.relfile() == 'src/cvt_xmi2mid.hpp']:
+        # roles, not names: the running time is the local handed as the time argument to the event converters / creators; the tempo is
+        # the local assembled from three source bytes (`read1() << 16`); a duration is added to the function's own time parameter
+        time_ids, tempo_ids = set(), set()
+        for b, ex, loc in fn.cfg.exprs():
+            for x in walk(ex):
+                if 'callee' in x and short(callee_name(x)) in ('xmi2mid_ConvertEvent', 'xmi2mid_ConvertSystemMessage', 'xmi2mid_CreateNewEvent') and len(x.get('a', [])) >= 2 \
+                        and strip(x['a'][1]).get('k') == 'DeclRefExpr' and not strip(x['a'][1]).get('parm'):
+                    time_ids.add(strip(x['a'][1])['id'])
+                ap = assign_parts_raw(x)
+                if ap and ap[2] == '=' and strip(ap[0]).get('k') == 'DeclRefExpr' and strip(ap[1]).get('k') == 'BinaryOperator' and strip(ap[1]).get('op') == '<<' and \
+                        const_of(strip(ap[1])['r']) == 16 and any(short(callee_name(y)) == 'xmi2mid_read1' for y in calls_in(ap[1])):
+                    tempo_ids.add(strip(ap[0])['id'])
+        time_param = fn.params[1]['id'] if len(fn.params) > 1 else None
         for b, ex, loc in fn.cfg.exprs():
             for x in walk(ex):
                 ap = assign_parts(x)
-                if ap and short(strip(ap[0]).get('n', '')) == 'time' and ap[2] == '+=' and strip(ap[1]).get('k') == 'BinaryOperator' and strip(ap[1])['op'] == '*':
+                if ap and strip(ap[0]).get('id') in time_ids and ap[2] == '+=' and strip(ap[1]).get('k') == 'BinaryOperator' and strip(ap[1])['op'] == '*':
                     ks['delta'] = const_of(strip(ap[1])['r'])
-                if ap and short(strip(ap[0]).get('n', '')) == 'tempo' and ap[2] == '*=':
+                if ap and strip(ap[0]).get('id') in tempo_ids and ap[2] == '*=':
                     ks['tempo'] = const_of(ap[1])
                 if short(x.get('callee', '')) == 'xmi2mid_CreateNewEvent' and len(x['a']) == 2:
                     a = strip(subst(x['a'][1], single_defs(fn.d)))      # the end time may have a name: `off_time = time + delta * 3`
-                    if a.get('k') == 'BinaryOperator' and a['op'] == '+' and strip(a['r']).get('k') == 'BinaryOperator' and strip(a['r'])['op'] == '*' and 'delta' in show(a['r']):
+                    if a.get('k') == 'BinaryOperator' and a['op'] == '+' and strip(a['r']).get('k') == 'BinaryOperator' and strip(a['r'])['op'] == '*' and strip(a['l']).get('id') == time_param:
                         ks['duration'] = const_of(strip(a['r'])['r'])
         for b, j, st in fn.cfg.returns():
             e = strip(st['s'].get('e') or {})
-            if e.get('k') == 'BinaryOperator' and e['op'] == '/' and 'tempo' in show(e['l']):
+            if e.get('k') == 'BinaryOperator' and e['op'] == '/' and mentions(e['l'], lambda y: y.get('id') in tempo_ids):
                 l = strip(e['l'])
                 ks['ppqn'] = (const_of(l['r']) if l.get('k') == 'BinaryOperator' and l['op'] == '*' else None, const_of(e['r']))
     ok = ks.get('delta') is not None and ks.get('delta') == ks.get('duration') == ks.get('tempo')
